@@ -72,6 +72,14 @@ def simrun_gen(profile, seed, count, out, steps=None, choices_dir=None):
     return (int(m.group(1)), int(m.group(2))) if m else (0, 0)
 
 
+def simrun_resume(choices, upto_seq, profile, seed, count, steps, out, save_dir):
+    cmd = [SIMRUN, "resume", "--choices", choices, "--upto-seq", str(upto_seq), "--profile", profile, "--seed", str(seed),
+           "--count", str(count), "--steps", str(steps), "--out", out, "--save-choices", save_dir]
+    p = run(cmd, timeout=900)
+    m = re.search(r"events=(\d+)", p.stdout)
+    return int(m.group(1)) if m else 0
+
+
 def simrun_replay(choices, out):
     p = run([SIMRUN, "replay", "--choices", choices, "--out", out], timeout=600)
     m = re.search(r"replayed (\d+) events, (\d+) inapplicable", p.stdout)
